@@ -502,6 +502,7 @@ Proof.
     apply files_only_set. exact F.
   - (* ext_remove *) cbn [fst with_disk disk]. apply files_only_remove. exact F.
   - (* ext_db *) destruct st; cbn [fst with_db disk]; exact F.
+  - (* ext_mark *) cbn [fst]. destruct (db_status (db s) h); exact F.
   - (* restart *) cbn [fst]. rewrite restart_disk. exact F.
   - (* restart with save *) cbn [fst]. rewrite restart_with_disk. exact F.
 Qed.
@@ -674,7 +675,7 @@ Proof.
     destruct (valid_name h); cbn [negb]; [|exact K].
     pose proof (get_blob_NoDup (save s) (disk s) (cache s) h len Hd) as G.
     destruct (get_blob (save s) (disk s) (cache s) h len) as [[d1 [kd v]] c1]. cbn [fst snd] in *.
-    assert (K1 : forall c a sv, keys_unique (mkState d1 (db s) (completed s) c a sv)) by (intros; split; [|split]; assumption).
+    assert (K1 : forall c a sv mk, keys_unique (mkState d1 (db s) (completed s) c a sv mk)) by (intros; split; [|split]; assumption).
     destruct v; [apply K1|]. destruct (kd && is_file d1 h); [apply K1|]. destruct (len =? 0); [apply K1|].
     destruct kd; unfold blob_completed, buffer_completed, keys_unique; cbn [fst disk db completed].
     + split; [apply NoDup_write_file; exact G|]. split; [apply NoDup_db_add; exact Hb | apply NoDup_set_add; exact Hc].
@@ -688,7 +689,7 @@ Proof.
     destruct (valid_name h); cbn [negb]; [|exact K].
     pose proof (get_blob_NoDup (save s) (disk s) (cache s) h len Hd) as G.
     destruct (get_blob (save s) (disk s) (cache s) h len) as [[d1 [kd v]] c1]. cbn [fst snd] in *.
-    assert (K1 : forall c a sv, keys_unique (mkState d1 (db s) (completed s) c a sv)) by (intros; split; [|split]; assumption).
+    assert (K1 : forall c a sv mk, keys_unique (mkState d1 (db s) (completed s) c a sv mk)) by (intros; split; [|split]; assumption).
     destruct v; [apply K1|]. destruct (kd && is_file d1 h); [apply K1|]. destruct (len =? 0); [apply K1|].
     unfold keys_unique. cbn [fst disk db completed].
     split; [destruct kd; [apply NoDup_write_file|]; exact G|]. split; [exact Hb | constructor].
@@ -721,6 +722,7 @@ Proof.
   - destruct st; cbn [fst]; unfold keys_unique, with_db; cbn [disk db completed].
     + split; [exact Hd|]. split; [apply NoDup_update, NoDup_insert_ignore; exact Hb | exact Hc].
     + split; [exact Hd|]. split; [unfold db_delete; apply NoDup_remove_key; exact Hb | exact Hc].
+  - cbn [fst]. destruct (db_status (db s) h); exact K.
   - cbn [fst]. apply restart_keys_unique. exact K.
   - cbn [fst]. apply restart_with_keys_unique. exact K.
 Qed.
@@ -906,8 +908,8 @@ Proof.
         + apply Fr; [exact Hit | reflexivity].
       - rewrite (Lo _ B) in L. destruct (is_file d1 k) eqn:K; [|reflexivity]. apply M in K.
         rewrite (J _ _ L Hk) in K. discriminate. }
-    assert (I1 : forall a sv, files_recorded (mkState d1 (db s) (completed s) c1 a sv)).
-    { intros a sv. split; [exact G|]. split; [|exact J1]. cbn [disk db]. intros k Vk K. apply R; [exact Vk | apply M; exact K]. }
+    assert (I1 : forall a sv mk, files_recorded (mkState d1 (db s) (completed s) c1 a sv mk)).
+    { intros a sv mk. split; [exact G|]. split; [|exact J1]. cbn [disk db]. intros k Vk K. apply R; [exact Vk | apply M; exact K]. }
     destruct v; [apply I1|]. destruct (kd && is_file d1 h) eqn:Bz; [apply I1|]. destruct (len =? 0); [apply I1|].
     destruct kd; unfold blob_completed, buffer_completed, files_recorded, buffers_fileless; cbn [fst disk db cache].
     + split; [apply files_only_write; exact G|]. split.
@@ -1008,4 +1010,34 @@ Proof.
   intro F. split; [rewrite !restart_disk; reflexivity|]. split.
   - intro h. apply second_restart_exact. exact F.
   - intro h. apply restart_db_idempotent.
+Qed.
+
+(* ---------- what the DHT announcer is handed after a start ---------- *)
+Lemma announce_finished head s h : In h (announce_list head s) -> db_status (db s) h = Some Finished.
+Proof.
+  unfold announce_list. intro H. apply filter_In in H as [_ H]. apply andb_true_iff in H as [H _].
+  unfold is_finished in H. destruct (db_status (db s) h) as [[|]|]; congruence.
+Qed.
+
+Lemma announced_have_files head s h : files_only (disk s) -> In h (announce_list head (restart s)) ->
+  valid_name h = true /\ is_file (disk (restart s)) h = true.
+Proof.
+  intros F H. apply announce_finished in H. rewrite restart_disk. apply finished_have_files; assumption.
+Qed.
+
+Lemma announce_all_exact s h : files_only (disk s) ->
+  (In h (announce_list false (restart s)) <-> valid_name h = true /\ is_file (disk s) h = true).
+Proof.
+  intro F. split.
+  - intro H. pose proof (announced_have_files false s h F H) as [V K]. rewrite restart_disk in K. auto.
+  - intros [V K]. pose proof (files_finished s h V K) as D. unfold announce_list. apply filter_In. split.
+    + unfold db_status in D. apply lookup_some_in in D. exact D.
+    + unfold is_finished. rewrite D. reflexivity.
+Qed.
+
+Lemma announce_head_subset s h : In h (announce_list true s) ->
+  In h (announce_list false s) /\ mem h (marked s) = true.
+Proof.
+  unfold announce_list. intro H. apply filter_In in H as [K H]. apply andb_true_iff in H as [H1 H2].
+  cbn [negb orb] in H2. split; [|exact H2]. apply filter_In. split; [exact K|]. rewrite H1. reflexivity.
 Qed.
